@@ -1,22 +1,27 @@
-"""replay of a failing case of a bounded stand-in against the real library"""
+"""replay of a failing case of a bounded stand-in against the real library: the family is run again with the recorded seed and
+tier on the tree given by --repo, and the recorded case is looked up among its failures"""
 import json
 
 
 def replay(prop, d, repo):
-    from . import b_merge
-    inp = d['input']
-    ay = b_merge.load(repo)
-    docs = inp.get('docs', [])
-    print('documents:', docs)
-    print('built    :', b_merge.build(ay, docs))
-    if inp.get('variant'):
-        print('variant  :', inp['variant'])
-        print('built    :', b_merge.build(ay, inp['variant']))
-    if inp.get('chain'):
-        from . import b_docs as G
-        print('wrapped under', inp['chain'], '(see detail)')
+    from pyvc.check import load_registry
+    R = load_registry()
+    task = [t for t in R.tasks if t.id == d.get('task')]
+    inp = d.get('input')
     print('recorded :', d.get('detail'))
-    fam = inp.get('family')
-    runner = getattr(b_merge, 'FAMILIES', {}).get(fam)
-    print(f'VIOLATION property={prop} replay={d.get("task")}')
-    return 1
+    if not task:
+        print(f'bounded task {d.get("task")!r} is no longer registered')
+        return 2
+    res = task[0].run(repo, d.get('tier') or 'quick', int(d.get('seed') or 0))
+    same = [f for f in res.get('failures', []) if f.get('name') == d.get('obligation') and f.get('input') == inp]
+    other = [f for f in res.get('failures', []) if f not in same]
+    if same:
+        print('replayed :', same[0].get('detail'))
+        print(f'VIOLATION property={prop} replay={d.get("task")}')
+        return 1
+    if other:
+        print(f'the recorded case no longer fails; the family reports {len(other)} other failure(s), e.g.: {other[0].get("detail")}')
+        print(f'VIOLATION property={prop} replay={d.get("task")}')
+        return 1
+    print(f'the recorded case no longer fails on {repo} ({res.get("cases")} cases run)')
+    return 0
